@@ -76,6 +76,12 @@ def grid(tier):
                 for flags in COMPRESS_FLAGS:
                     cases.append({"command": "compress", "state": state, "flags": flags, "archive": inp,
                                   "variant": variant, "extra": []})
+    # a block device named through a symbolic link (as under /dev/disk/by-*) is still a block device
+    for command in ("clone-local", "clone-http"):
+        for state in ("blockdev-small", "blockdev-large"):
+            for flags in CLONE_FLAGS:
+                cases.append({"command": command, "state": state, "flags": flags, "archive": "valid",
+                              "variant": "A", "extra": [], "symlink": True})
     if tier == "quick":
         # no extra option may weaken the "output already exists" refusal
         for command in ("clone-local", "clone-http"):
@@ -112,7 +118,7 @@ def classify(case):
 
 
 def cell_key(case):
-    return (case["command"], case["state"], " ".join(case["flags"]) or "none", case["archive"])
+    return (case["command"], case["state"] + ("-via-symlink" if case.get("symlink") else ""), " ".join(case["flags"]) or "none", case["archive"])
 
 
 # ------------------------------------------------------------------------------------------------
@@ -272,6 +278,14 @@ def probe_output(path):
         with open(path, "rb") as f:
             data = f.read()
         return {"exists": True, "kind": kind, "size": len(data), "sha256": sha(data), "_data": data}
+    if kind == "link":
+        # an output named through a symbolic link (/dev/disk/by-*): what is behind it is what counts
+        try:
+            with open(path, "rb") as f:
+                data = f.read()
+            return {"exists": True, "kind": "link->" + os.readlink(path), "size": len(data), "sha256": sha(data), "_data": data}
+        except OSError:
+            return {"exists": True, "kind": "link->" + os.readlink(path), "size": None, "sha256": None}
     return {"exists": True, "kind": kind, "size": None, "sha256": None}
 
 
@@ -313,6 +327,10 @@ def run_case(env_, idx, case):
                     f.write(content)
                 run_env = c16.child_env({"BITA_VERIF_BLOCKDEV": "1"})
             facts["block"] = env_["block_device"]
+            if case.get("symlink"):
+                link = os.path.join(case_dir, "out", "by-label-link")
+                os.symlink(output, link)
+                output = link
         else:
             output = os.path.join(case_dir, "out", "output.cba" if case["command"] == "compress" else "output.img")
             if content is not None:
